@@ -49,3 +49,6 @@ func (am *AllocatorManager) SimPeekAll() []SimPeek {
 	}
 	return out
 }
+
+// SimMaxSuffix returns the manager's in-memory max suffix (monitor/oracle use; no lock).
+func (am *AllocatorManager) SimMaxSuffix() int { return int(am.mu.maxSuffix) }
